@@ -57,7 +57,8 @@ class C12(BtProp):
                 now += rng.choice([0, 1, 2])
                 t = bt_gen.gen_tick(rng, prof, spec, now)
                 extra = " a=" + rng.choice("of") if rng.random() < 0.08 else ""
-                ops.append("mtick p=%s q=%s%s %s" % (rng.choice("01"), rng.choice("01"), extra, t[5:]))
+                tt = " tt=1" if rng.random() < 0.25 else ""
+                ops.append("mtick p=%s q=%s%s%s %s" % (rng.choice("01"), rng.choice("01"), extra, tt, t[5:]))
             if rng.random() < 0.4:
                 ops.append("shutdown")
             out.append(Scenario("bt", "%s_%s_%d" % (self.pid, tier[0], i), ["tree " + spec_str(spec)], ops,
